@@ -73,7 +73,12 @@ impl TransportFn<()> for RawRun {
             match choose(12) {
                 0 | 1 => {
                     // post a receive buffer
-                    let len = if flip(1, 6) { choose(1526) as usize } else { 1526 + choose(600) as usize };
+                    let len = match choose(12) {
+                        0 | 1 => choose(1526) as usize,
+                        // large buffers: lengths around the 16-bit boundary must be shared whole
+                        2 => [65535usize, 65536, 65537, 70000, 131072][choose(5) as usize],
+                        _ => 1526 + choose(600) as usize,
+                    };
                     let mut buf = vec![0xCCu8; len];
                     // SAFETY: kept in `rx` until completed.
                     let r = unsafe { net.receive_begin(&mut buf) };
